@@ -15,16 +15,19 @@ ID = "C13"
 GEN = []
 CORR_NAME = "substitute-output"
 RULE = ("one case = (expression, ordered map of (key, value, verdict of key.type.is_compatible(value.type) on the real types)). "
-        "Expressions come from the shared typed grammar (upx.ExprGen: connectives with nested same-operator nodes, raw double "
+        "Expressions: 55% from the shared typed grammar (upx.ExprGen: connectives with nested same-operator nodes, raw double "
         "negations, arithmetic with huge constants, comparisons, equalities over related user types, quantifiers over T/S/U/E) "
-        "extended with fluents over a bounded integer parameter (h, hb) and, in a quarter of the cases, a copy of a quantifier body "
-        "placed beside the quantifier (free occurrences of its variables) or shadowing binders. Keys: fluent applications / "
-        "parameters / variables occurring in the expression, compound subterms (incl. whole quantified subformulas and the "
-        "expression itself), subterms of other keys or values (nested keys), keys under binders that bind their variables, keys "
-        "absent from the expression. Values: generated at the key's type (mostly compatible; the rest form the malformed "
-        "stream), 30% over the bound variables of the expression (capture), 20% containing another key (no re-substitution). "
-        "Planted: a compound key whose interior cannot be rebuilt (D-C13a). Non-trivial = the map was rejected, or the result "
-        "differs from the input.")
+        "extended with fluents over a bounded integer parameter (h, hb); 38% built around a quantifier whose variable is used "
+        "(optionally a nested binder over the same variable, or a copy of a body literal beside the quantifier = free occurrences "
+        "of its variable); 30% of the quantified ones get a copy of a quantifier body beside them, 15% have their variables "
+        "renamed into a two-name pool (shadowing). Keys: whole quantified subformulas, fluent applications / parameters / "
+        "variables occurring in the expression, compound subterms, subterms of other keys or values (nested keys), the image of "
+        "a subterm under the pairs chosen so far (must not be substituted again), the expression itself, keys absent from the "
+        "expression. Values: generated at the key's real type (retried until compatible), 30% over the bound variables of the "
+        "expression (capture), 20% containing another key, 25% constants (grounding style); 13% of the maps get one value of a "
+        "wrong type (malformed stream), 2% are empty. Planted: 4% a compound key whose interior cannot be rebuilt (D-C13a), 3% a "
+        "simple key active under a binder whose value mentions the bound variable (F-C13-capture). Non-trivial = the map was "
+        "rejected, or the result differs from the input.")
 ASSUMPTIONS = ["keys and values are FNodes of the expression's environment (auto_promote of Python constants/Fluent objects is not exercised)",
                "the map is a dict: keys are pairwise distinct",
                "the property presupposes that its result exists: cases whose top-down result contains a node the library's type "
@@ -269,13 +272,80 @@ def planted_interior(rng, g):
     return e, pairs
 
 
+BQ = ["bq", "bool", [U("T")]]
+BS = ["bs", "bool", [U("S")]]
+OWN = ["own", U("T"), [U("S")]]
+
+
+def quant_rich(rng, g, depth):
+    """an expression built around a quantifier whose variable is really used, optionally with a copy of the body
+    beside it (free occurrences of the variable) or a nested binder"""
+    g.fresh += 1
+    tyn = rng.choice(["T", "S", "S", "U"])
+    name = f"q{g.fresh}"
+    var = ["v", name, U(tyn)]
+    sc = ((name, U(tyn)),)
+    lits = [["eq", var, g.obj_of(tyn, ())], ["eq", g.obj_of(tyn, ()), var]]
+    if tyn in ("T", "S"):
+        lits += [["fl", BQ, var], ["fl", BQ, var], ["le", ["fl", ["xq", ["int", "-5", "5"], [U("T")]], var], g.num(0)]]
+    if tyn == "S":
+        lits += [["fl", BS, var], ["eq", ["fl", OWN, var], g.obj_of("T", sc)]]
+    parts = [rng.choice(lits) for _ in range(rng.choice([1, 1, 2]))] + [g.boolean(max(depth - 1, 0), sc)]
+    rng.shuffle(parts)
+    body = [rng.choice(["and", "or"])] + parts if rng.random() < 0.85 else ["implies", parts[0], parts[-1]]
+    if rng.random() < 0.2:     # nested binder, sometimes over the same variable
+        g.fresh += 1
+        n2 = name if rng.random() < 0.4 else f"q{g.fresh}"
+        body = [body[0], [rng.choice(QUANT), [[n2, U(tyn)]], [rng.choice(["and", "or"]), rng.choice(lits), ["fl", BQ if tyn != "U" else ["b1", "bool", []]] + ([["v", n2, U(tyn)]] if tyn != "U" else [])]]] + body[1:] \
+            if body[0] in ("and", "or") else body
+    q = [rng.choice(QUANT), [[name, U(tyn)]], body]
+    r = rng.random()
+    if r < 0.25:
+        return q
+    if r < 0.5:
+        return [rng.choice(["and", "or"]), q, g.boolean(max(depth - 1, 0))]
+    if r < 0.8:
+        return [rng.choice(["and", "or"]), rng.choice(parts), q] if rng.random() < 0.5 else ["implies", body, q]
+    return ["not", q] if rng.random() < 0.5 else ["iff", q, g.boolean(1)]
+
+
+def planted_capture(rng, g):
+    """F-C13-capture: a simple key stays active under a binder while its value mentions the bound variable"""
+    tyn = rng.choice(["T", "S"])
+    g.fresh += 1
+    name = f"q{g.fresh}"
+    var = ["v", name, U(tyn)]
+    k = rng.choice([["fl", ["b0", "bool", []]], ["p", "pb", "bool"], ["fl", BQ, ["o", "t1", "T"]],
+                    ["fl", ["at", U("T"), []]], ["p", "pt", U("T")]])
+    if k[0] == "p" and k[2] == "bool" or (k[0] == "fl" and k[1][1] == "bool"):
+        v = rng.choice([["fl", BQ, var], ["not", ["fl", BQ, var]], ["eq", var, ["o", "s1", "S"]]])
+        occ = k
+    else:
+        v = var if rng.random() < 0.7 or tyn == "T" else ["fl", OWN, var]
+        occ = rng.choice([["fl", BQ, k], ["eq", k, ["o", "s2", "S"]]])
+    body = [rng.choice(["and", "or"]), ["fl", BQ, var], occ]
+    if rng.random() < 0.5:
+        body = [body[0], body[2], body[1]]
+    q = [rng.choice(QUANT), [[name, U(tyn)]], body]
+    e = q if rng.random() < 0.5 else [rng.choice(["and", "or"]), q, occ]
+    pairs = [(k, v)]
+    if rng.random() < 0.3:
+        pairs.append((["fl", ["b1", "bool", []]], g.boolean(0)))
+    return e, pairs
+
+
 def make_case(rng, g):
     """returns (e, [(k, v)]) or None"""
     r0 = rng.random()
     if r0 < 0.04:
         return planted_interior(rng, g)
+    if r0 < 0.07:
+        return planted_capture(rng, g)
     depth = rng.choice([1, 2, 2, 3, 3, 4])
-    e = g.boolean(depth) if rng.random() < 0.85 else g.num(depth)
+    if r0 < 0.45:
+        e = quant_rich(rng, g, min(depth, 3))
+    else:
+        e = g.boolean(depth) if rng.random() < 0.85 else g.num(depth)
     boolean = e[0] in ("and", "or", "not", "implies", "iff", "le", "lt", "eq", "exists", "forall", "b") or \
         (e[0] == "fl" and e[1][1] == "bool") or (e[0] == "p" and e[2] == "bool")
     qs = [t for t, _ in subterms(e) if t[0] in QUANT]
@@ -302,14 +372,22 @@ def make_case(rng, g):
     for i in range(npairs):
         r = rng.random()
         k = None
-        if r < 0.38 and atoms:
+        if r < 0.1 and qs:
+            k = rng.choice(qs)
+        elif r < 0.38 and atoms:
             k = rng.choice(atoms)
         elif r < 0.72 and compound:
             k = rng.choice(compound)
-        elif r < 0.84 and pairs:
+        elif r < 0.80 and pairs:
             src = rng.choice(pairs)[rng.randrange(2)]
             inner = [t for t, _ in subterms(src)]
             k = rng.choice(inner)
+        elif r < 0.86 and pairs and compound:
+            # a key equal to what a subterm BECOMES under the pairs chosen so far (must not be substituted again)
+            t = rng.choice(compound)
+            k = ref_subst(t, pairs)
+            if k == t:
+                k = nf(k) if nf(k) != t else None
         elif r < 0.9:
             k = e
         else:
@@ -349,6 +427,8 @@ def make_case(rng, g):
         if v is None:
             continue
         pairs.append((k, v))
+    if npairs > 0 and not pairs:
+        return None
     return e, pairs
 
 
@@ -371,7 +451,7 @@ def with_verdicts(e, pairs):
 
 
 def cases(rng, tier):
-    n = 1500 if tier == "quick" else 40000
+    n = 1500 if tier == "quick" else 12000
     produced = 0
     attempts = 0
     while produced < n and attempts < 4 * n:
@@ -467,6 +547,8 @@ def stats(payload, ans):
         t.append("value-captured")
     if pairs and all(simple_key(k) for k in ks):
         t.append("simple-keys")
+    if ans != "reject" and semantic_domain(e, pairs):
+        t.append("semantic-clause-evaluated")
     return t
 
 
